@@ -164,26 +164,31 @@ func gen(c *ex.Ctx) {
 		{"App", "Run", "runArms"},
 		{"App", "handleCommand", "handleCommandArms"},
 	} {
+		// A function or switch that is no longer there degrades to the single arm "?missing" (the
+		// covering theorems then fail; the Gen file is still written so that the drivers build and
+		// the correspondence streams can look for a failing input).
 		fd := ex.FindFunc(f, x.recv, x.name)
+		var ts *ast.TypeSwitchStmt
 		if fd == nil {
 			c.Fail("vxfw.go: func (%s) %s not found", x.recv, x.name)
-			return
-		}
-		ts := firstTypeSwitch(fd)
-		if ts == nil {
+		} else if ts = firstTypeSwitch(fd); ts == nil {
 			c.Fail("vxfw.go: no type switch in (%s).%s", x.recv, x.name)
-			return
+		}
+		if ts == nil {
+			b.WriteString("def " + x.lean + " : List (String × List String) := [(\"?missing\", [])]\n\n")
+			continue
 		}
 		b.WriteString(leanArms(x.lean, ts))
 	}
 	// the sort used by Surface.render on the children
 	fd := ex.FindFunc(f, "Surface", "render")
+	var sorts []string
 	if fd == nil {
 		c.Fail("vxfw.go: func (Surface) render not found")
-		return
+		sorts = append(sorts, ex.LeanStr("?missing"))
+		fd = &ast.FuncDecl{Body: &ast.BlockStmt{}}
 	}
-	var sorts []string
-	ast.Inspect(fd, func(n ast.Node) bool {
+	ast.Inspect(fd.Body, func(n ast.Node) bool {
 		if ce, ok := n.(*ast.CallExpr); ok && strings.HasPrefix(show(ce.Fun), "sort.") {
 			sorts = append(sorts, ex.LeanStr(show(ce.Fun)))
 		}
